@@ -19,7 +19,7 @@ FH = "mitmproxy.tools.web.app:FlowHandler"
 M = "props.C47:"
 ASSUMPTIONS = [
     "Flow.get_state/set_state are abstracted to an exact snapshot/restore of the editable state S plus the `backup` entry (their own contracts are C40); Flow.backup and Flow.revert run from their real source",
-    "request/response objects are models with plain attributes for method/scheme/host/path/http_version/port/reason/status_code; `headers`/`trailers` are a model of Headers with clear() and add(key, value) (TypeError on any other arity, like MultiDict.add); `text = v` raises AttributeError unless v is a str (Message.set_text calls v.encode). The real property setters (host/authority coupling, surrogate handling) are exercised in T2 on real flows through the real tornado application",
+    "request/response objects are models with plain attributes for method/scheme/host/path/http_version/port/reason/status_code; `headers`/`trailers` are a model of Headers with clear() and add(key, value) (TypeError on any other arity, like MultiDict.add; name and value are validated with the real mitmproxy.http._always_bytes, interpreted from source: TypeError for None); `text = v` raises AttributeError unless v is a str (Message.set_text calls v.encode). The real property setters (host/authority coupling, surrogate handling) are exercised in T2 on real flows through the real tornado application",
     "RequestHandler.flow / .json / .view (tornado plumbing: route argument lookup, JSON body parsing) are given: the handler model holds the flow, the parsed document and the view; T2 goes through the real ones",
     "edit documents are dicts of dicts as produced by json.loads; documents whose `request`/`response` entry is not an object are covered in T2 only",
 ]
@@ -32,6 +32,10 @@ class HeadersModel:
     def add(self, *args):
         if len(args) != 2:
             raise TypeError("MultiDict.add() takes exactly 2 positional arguments")
+        # Headers.insert converts name and value with http._always_bytes (real source: TypeError for None, was KF-C47-3)
+        import mitmproxy.http
+        mitmproxy.http._always_bytes(args[0])
+        mitmproxy.http._always_bytes(args[1])
         self.pairs = self.pairs + ((args[0], args[1]),)
 
 
@@ -97,7 +101,7 @@ def _flow_cls():
 REQ_FIELDS = ["method", "scheme", "host", "path", "http_version", "port", "_text"]
 RESP_FIELDS = ["reason", "http_version", "status_code", "_text"]
 SNAPSHOT_KEYS = (["req_" + k for k in REQ_FIELDS] + ["req_headers", "req_trailers"] + ["resp_" + k for k in RESP_FIELDS]
-                 + ["resp_headers", "resp_trailers", "marked", "comment", "backup"])
+                 + ["resp_headers", "resp_trailers", "server_address", "server_via", "marked", "comment", "backup"])
 
 
 def snapshot_of(new, f):
@@ -112,6 +116,8 @@ def snapshot_of(new, f):
         d["resp_" + k] = None if absent else getattr(f.response, k)
     d["resp_headers"] = None if absent else f.response.headers.pairs
     d["resp_trailers"] = None if absent or isnone(f.response.trailers) else f.response.trailers.pairs
+    d["server_address"] = f.server_conn.address
+    d["server_via"] = f.server_conn.via
     d["marked"] = f.marked
     d["comment"] = f.comment
     d["backup"] = f._backup
@@ -128,9 +134,19 @@ def restore_from(new_headers, f, s):
             setattr(f.response, k, getattr(s, "resp_" + k))
         f.response.headers.pairs = s.resp_headers
         f.response.trailers = None if isnone(s.resp_trailers) else new_headers(s.resp_trailers)
+    # Flow.set_state -> Server.set_state re-assigns freshly built (equal) tuples: goes through the real Server.__setattr__
+    f.server_conn.address = _fresh_copy(s.server_address)
+    f.server_conn.via = _fresh_copy(s.server_via)
     f.marked = s.marked
     f.comment = s.comment
     f._backup = s.backup
+
+
+def _fresh_copy(t):
+    """an equal but not identical tuple (what deserialising a state produces)"""
+    if isinstance(t, tuple):
+        return tuple([_fresh_copy(x) for x in t])
+    return t
 
 
 def _native_get_state(f):
@@ -150,6 +166,12 @@ def _native_set_state(f, s):
 
 
 _flow_cls()
+
+
+def _sym_fresh_copy(t):
+    if isinstance(t, STuple):
+        return STuple([_sym_fresh_copy(x) for x in t.items])
+    return t
 
 
 def install_state_summaries(vc):
@@ -173,6 +195,8 @@ def install_state_summaries(vc):
             d["resp_headers"] = resp.fields["headers"].fields["pairs"]
             t = v.resolve(resp.fields["trailers"])
             d["resp_trailers"] = NONE if isnone(t) else t.fields["pairs"]
+        srv = f.fields["server_conn"]
+        d["server_address"], d["server_via"] = srv.fields["address"], srv.fields["via"]
         d["marked"], d["comment"], d["backup"] = f.fields["marked"], f.fields["comment"], f.fields["_backup"]
         return v.new(M + "Snapshot", **d)
 
@@ -193,6 +217,11 @@ def install_state_summaries(vc):
             resp.fields["headers"].fields["pairs"] = s.fields["resp_headers"]
             t = v.resolve(s.fields["resp_trailers"])
             resp.fields["trailers"] = NONE if isnone(t) else v.new(M + "HeadersModel", pairs=t)
+        # the server connection's state is restored next (as in Flow.set_state): Server.set_state assigns freshly built,
+        # equal tuples — through the real Server.__setattr__, interpreted from mitmproxy/connection.py
+        srv = f.fields["server_conn"]
+        for attr, key in (("address", "server_address"), ("via", "server_via")):
+            v.it.setattr_(srv, attr, _sym_fresh_copy(v.resolve(s.fields[key])))
         f.fields["marked"], f.fields["comment"], f.fields["_backup"] = s.fields["marked"], s.fields["comment"], s.fields["backup"]
         return NONE
 
@@ -229,6 +258,8 @@ def observe(vc, f):
         out.append(("response." + k, None if absent else getattr(f.response, k)))
     out.append(("response.headers", None if absent else f.response.headers.pairs))
     out.append(("response.trailers", None if absent or isnone(f.response.trailers) else f.response.trailers.pairs))
+    out.append(("server.address", f.server_conn.address))
+    out.append(("server.via", f.server_conn.via))
     out.append(("marked", f.marked))
     out.append(("comment", f.comment))
     return out
@@ -259,6 +290,10 @@ def _docs():
         "request{method,headers:[2,2]}": [("request", "method", S("d_method")), ("request", "headers", pairs("d_h", [2, 2]))],
         "request{headers:[2,1]}": [("request", "headers", pairs("d_h", [2, 1]))],
         "request{headers:[3]}": [("request", "headers", pairs("d_h", [3]))],
+        "request{method,headers:[[a,null]]}": [("request", "method", S("d_method")), ("request", "headers", lambda vc: [[vc.sym_str("d_h0_0"), vc.sym_str("d_h0_1")], [vc.sym_str("d_h1_0"), None]])],
+        "response{headers:[[null,b]]}": [("response", "headers", lambda vc: [[None, vc.sym_str("d_h0_1")]])],
+        "request{path,trailers:[[t,null]]}": [("request", "path", S("d_path")), ("request", "trailers", lambda vc: [[vc.sym_str("d_t0_0"), None]])],
+        "response{reason,trailers:[[t,null]]}": [("response", "reason", S("d_reason")), ("response", "trailers", lambda vc: [[vc.sym_str("d_t0_0"), None]])],
         "request{trailers:[2]}": [("request", "trailers", pairs("d_t", [2]))],
         "request{method,trailers:[0]}": [("request", "method", S("d_method")), ("request", "trailers", pairs("d_t", [0]))],
         "request{content:str}": [("request", "content", S("d_text"))],
@@ -337,7 +372,7 @@ def spec_apply(vc, pre, vals):
 INT_TEXTS = [{"d_port_s": a, "d_code_s": b} for a, b in (("8081", "404"), ("x", "x"), (" 81", "+404"), ("", ""), ("1_0", "4_04"), ("-", "0x1"))]
 
 
-@scenario("FlowHandler.put", functions=[FH + ".put", "mitmproxy.flow:Flow.backup", "mitmproxy.flow:Flow.revert"], candidates=INT_TEXTS)
+@scenario("FlowHandler.put", functions=[FH + ".put", "mitmproxy.flow:Flow.backup", "mitmproxy.flow:Flow.revert", "mitmproxy.connection:Server.__setattr__"], candidates=INT_TEXTS)
 def s_put(vc):
     import mitmproxy.tools.web.app as webapp
     name = vc.case("document", list(DOCS))
@@ -345,12 +380,19 @@ def s_put(vc):
     has_response = vc.case("flow_has_response", [True, False]) if ("response" in name and not prior_backup) else True
     install_state_summaries(vc)
     req, resp, marked, comment = mk_state(vc, "", trailers=vc.case("request_has_trailers", [False, True]) if "trailers" in name and name.startswith("request") else False)
-    flow = vc.new(M + "FlowModel", request=req, response=resp if has_response else None, marked=marked, comment=comment, _backup=None, id="42")
+    # the flow's server connection: closed (finished flow) or OPEN (live flow, e.g. edited while intercepted) with address / via set;
+    # Server.__setattr__ refuses to change address/via of an open connection
+    from mitmproxy.connection import ConnectionState
+    srv_state = vc.case("server_connection", ["closed", "open", "open via upstream proxy"])
+    address = (vc.sym_str("server_host"), vc.sym_int("server_port", lo=0, hi=65535))
+    via = ("http", (vc.sym_str("via_host"), vc.sym_int("via_port", lo=0, hi=65535))) if "via" in srv_state else None
+    server = vc.new("mitmproxy.connection:Server", state=ConnectionState.CLOSED if srv_state == "closed" else ConnectionState.OPEN, address=address, via=via)
+    flow = vc.new(M + "FlowModel", request=req, response=resp if has_response else None, server_conn=server, marked=marked, comment=comment, _backup=None, id="42")
     backup_differs = False
     if prior_backup:
         # an earlier successful edit left a backup holding the state S0 from before that edit
         r0, p0, m0, c0 = mk_state(vc, "b_", trailers=False)
-        holder = vc.new(M + "FlowModel", request=r0, response=p0, marked=m0, comment=c0, _backup=None, id="42")
+        holder = vc.new(M + "FlowModel", request=r0, response=p0, server_conn=server, marked=m0, comment=c0, _backup=None, id="42")
         b = snapshot_of(lambda **d: vc.new(M + "Snapshot", **d), holder)
         flow._backup = b
         backup_differs = Not(And(*[same(vc, x[1], y[1]) for x, y in zip(observe(vc, holder), observe(vc, flow))]))
@@ -367,9 +409,13 @@ def s_put(vc):
             # there is no response to edit: the document cannot be applied completely, so it must be rejected (and, below, leave no trace)
             vc.ensure("no_response.document_with_response_part_rejected", False)
             return
+        if any(key in ("headers", "trailers") and any(x is None for pair in v for x in pair) for _, key, v in vals):
+            # a header / trailer entry whose name or value is null is a malformed header list: the document must be rejected
+            vc.ensure("malformed_header_entry.document_rejected", False)
+            return
         want = spec_apply(vc, dict(pre), vals)
         for (field, got) in post:
-            if want[field] is not None or field.endswith("trailers"):
+            if want[field] is not None or field.endswith(("trailers", "server.via")):
                 vc.ensure(f"ok.applied[{field}]", same(vc, got, want[field]))
         vc.ensure("ok.view_updated_once", len(updated) == 1)
         if len(updated) == 1:
@@ -397,6 +443,7 @@ def observe_snapshot(vc, s):
     for k in RESP_FIELDS:
         d["response." + k] = getattr(s, "resp_" + k)
     d["response.headers"], d["response.trailers"] = s.resp_headers, s.resp_trailers
+    d["server.address"], d["server.via"] = s.server_address, s.server_via
     d["marked"], d["comment"] = s.marked, s.comment
     return d
 
@@ -430,6 +477,11 @@ MENU = [
     ("resp.headers:arity3", "response", "headers", [["a", "b", "c"]], False),
     ("req.trailers:arity1", "request", "trailers", [["t"]], False),
     ("req.content:int", "request", "content", 5, False),
+    ("req.headers:null-value", "request", "headers", [["a", "b"], ["c", None]], False),
+    ("resp.headers:null-name", "response", "headers", [[None, "b"]], False),
+    ("req.trailers:null-value", "request", "trailers", [["t", None]], False),
+    ("resp.trailers:null-value", "response", "trailers", [["t", None]], False),
+    ("req.headers:int-value", "request", "headers", [["a", 5]], False),
     ("req.method:surrogate", "request", "method", "\ud800", False),
     ("req.host:surrogate", "request", "host", "a\ud800.example", None),   # validity decided by the real setter (200 or error)
 ]
@@ -471,9 +523,16 @@ def bounded(tier, seed):
     b.exhaustive = True
     w = WebApp.start(xsrf=False)
     try:
-        def fresh(prior):
+        def fresh(prior, live=False):
             f = tflow.tflow(resp=True)
             f.id = "42"
+            if live:
+                # a live flow (e.g. edited while intercepted at the response): the server connection is OPEN and has its
+                # address and via (upstream proxy) set — Server.__setattr__ then refuses to change them
+                from mitmproxy.connection import ConnectionState
+                f.live = True
+                f.server_conn.via = ("http", ("upstream.example", 3128))
+                f.server_conn.state = ConnectionState.OPEN
             w.view.clear()
             w.view.add([f])
             if prior:
@@ -481,20 +540,22 @@ def bounded(tier, seed):
                 assert r.code == 200, r.code
             return f
 
-        def run(entries, doc, prior, key):
-            f = fresh(prior)
+        def run(entries, doc, prior, key, live=False):
+            f = fresh(prior, live)
             before = _core(f.get_state())
             r = w.request("PUT", "/flows/42", json_body=doc)
             after = _core(f.get_state())
             labels = [e[0] for e in entries]
-            inp = {"entries": labels, "document": doc, "prior_edit": prior}
+            inp = {"entries": labels, "document": doc, "prior_edit": prior, "server_connection": "open" if live else "closed"}
+            if r.code >= 400 and r.code != 400:
+                b.fail("put.rejected_with_400", inp, f"status {r.code}")
             all_valid = entries and all(e[4] is True for e in entries)
             any_invalid = any(e[4] is False for e in entries)
             b.case(key, nontrivial=any_invalid and any(e[4] for e in entries))
             if all_valid and r.code != 200:
                 b.fail("put.valid_document_accepted", inp, f"status {r.code}")
             if any_invalid and r.code < 400:
-                b.fail("put.invalid_document_rejected", inp, f"status {r.code}")
+                b.fail("put.invalid_document_rejected", inp, f"status {r.code}: accepted")
             if r.code >= 400:
                 if after != before:
                     diff = sorted(k for k in before if before[k] != after.get(k))
@@ -523,8 +584,8 @@ def bounded(tier, seed):
                 doc = _doc_of(entries)
                 if doc is None:
                     continue
-                for prior in (False, True):
-                    run(entries, doc, prior, (tuple(e[0] for e in entries), prior))
+                for prior, live in ((False, False), (True, False), (False, True), (True, True)):
+                    run(entries, doc, prior, (tuple(e[0] for e in entries), prior, live), live)
         # ---- an earlier accepted edit, then a rejected edit whose valid prefix exactly undoes it (the flow then equals its
         #      backup again although it is not the state from before the rejected request)
         undo = [("request", "method", "PATCH"), ("request", "path", "/edited"), ("response", "code", 404), ("response", "reason", "Edited"), ("", "comment", "first"), ("", "marked", ":red_circle:")]
@@ -614,5 +675,6 @@ def _read_field(f, sec, k):
     if k in ("headers", "trailers"):
         h = getattr(m, k)
         # setting the content maintains Content-Length: not part of the requested header list
-        return [(a.decode(), c.decode()) for a, c in h.fields if a.lower() != b"content-length"]
+        dec = lambda x: x.decode() if isinstance(x, bytes) else x
+        return [(dec(a), dec(c)) for a, c in h.fields if not (isinstance(a, bytes) and a.lower() == b"content-length")]
     return getattr(m, k)
